@@ -466,63 +466,66 @@ impl AutoBroker {
     }
 }
 
+/// The frames a well-behaved server sends in reaction to one client method: the reply (with
+/// unique values) plus, for "full." queues, the message a Get returns / the delivery that follows
+/// a Consume. None for methods without a reply.
+pub fn reply_bundle(salt: u64, ch: u16, seq: u32, m: &AMQPClass) -> Option<Vec<AMQPFrame>> {
+    let reply = reply_for(salt, ch, seq, m)?;
+    let u = |k| uniq(salt, ch, seq, k);
+    Some(match m {
+        AMQPClass::Basic(Basic::Get(g)) if crate::ops::is_full_queue(&g.queue) => {
+            let body = crate::ops::full_message_body(salt, ch, seq);
+            content_frames(
+                ch,
+                AMQPClass::Basic(Basic::GetOk(basic::GetOk {
+                    delivery_tag: crate::ops::delivery_tag_for(salt, ch, seq),
+                    redelivered: u(14) & 1 == 1,
+                    exchange: format!("ex-{:x}", u(15)),
+                    routing_key: format!("rk-{:x}", u(16)),
+                    message_count: u(17),
+                })),
+                &amiquip::AmqpProperties::default(),
+                &body,
+                &[7, 13],
+            )
+        }
+        AMQPClass::Basic(Basic::Consume(c)) if crate::ops::is_full_queue(&c.queue) => {
+            let tag = match &reply {
+                AMQPClass::Basic(Basic::ConsumeOk(ok)) => ok.consumer_tag.clone(),
+                _ => String::new(),
+            };
+            let body = crate::ops::full_message_body(salt, ch, seq);
+            let mut v = vec![AMQPFrame::Method(ch, reply.clone())];
+            v.extend(content_frames(
+                ch,
+                AMQPClass::Basic(Basic::Deliver(basic::Deliver {
+                    consumer_tag: tag,
+                    delivery_tag: crate::ops::delivery_tag_for(salt, ch, seq),
+                    redelivered: u(14) & 1 == 1,
+                    exchange: format!("ex-{:x}", u(15)),
+                    routing_key: format!("rk-{:x}", u(16)),
+                })),
+                &amiquip::AmqpProperties::default(),
+                &body,
+                &[5, 1000],
+            ));
+            v
+        }
+        _ => vec![AMQPFrame::Method(ch, reply)],
+    })
+}
+
 impl Responder for AutoBroker {
     fn on_frame(&mut self, io: &mut BrokerIo, frame: &AMQPFrame) {
         if let AMQPFrame::Method(ch, m) = frame {
             let seq = self.seq.entry(*ch).or_insert(0);
-            if let Some(reply) = reply_for(self.salt, *ch, *seq, m) {
-                self.log.push((*ch, *seq, m.clone(), reply.clone()));
-                let this_seq = *seq;
+            if let Some(bundle) = reply_bundle(self.salt, *ch, *seq, m) {
+                if let Some(reply) = reply_for(self.salt, *ch, *seq, m) {
+                    self.log.push((*ch, *seq, m.clone(), reply));
+                }
                 *seq += 1;
-                // "full." queues hold one message: Get answers GetOk + content, Consume is
-                // followed by one delivery
-                match m {
-                    AMQPClass::Basic(Basic::Get(g)) if crate::ops::is_full_queue(&g.queue) => {
-                        let body = crate::ops::full_message_body(self.salt, *ch, this_seq);
-                        let u = |k| uniq(self.salt, *ch, this_seq, k);
-                        let frames = content_frames(
-                            *ch,
-                            AMQPClass::Basic(Basic::GetOk(basic::GetOk {
-                                delivery_tag: crate::ops::delivery_tag_for(self.salt, *ch, this_seq),
-                                redelivered: u(14) & 1 == 1,
-                                exchange: format!("ex-{:x}", u(15)),
-                                routing_key: format!("rk-{:x}", u(16)),
-                                message_count: u(17),
-                            })),
-                            &amiquip::AmqpProperties::default(),
-                            &body,
-                            &[7, 13],
-                        );
-                        for f in frames {
-                            io.send(f);
-                        }
-                    }
-                    AMQPClass::Basic(Basic::Consume(c)) if crate::ops::is_full_queue(&c.queue) => {
-                        io.send_method(*ch, reply.clone());
-                        let tag = match &reply {
-                            AMQPClass::Basic(Basic::ConsumeOk(ok)) => ok.consumer_tag.clone(),
-                            _ => String::new(),
-                        };
-                        let body = crate::ops::full_message_body(self.salt, *ch, this_seq);
-                        let u = |k| uniq(self.salt, *ch, this_seq, k);
-                        let frames = content_frames(
-                            *ch,
-                            AMQPClass::Basic(Basic::Deliver(basic::Deliver {
-                                consumer_tag: tag,
-                                delivery_tag: crate::ops::delivery_tag_for(self.salt, *ch, this_seq),
-                                redelivered: u(14) & 1 == 1,
-                                exchange: format!("ex-{:x}", u(15)),
-                                routing_key: format!("rk-{:x}", u(16)),
-                            })),
-                            &amiquip::AmqpProperties::default(),
-                            &body,
-                            &[5, 1000],
-                        );
-                        for f in frames {
-                            io.send(f);
-                        }
-                    }
-                    _ => io.send_method(*ch, reply),
+                for f in bundle {
+                    io.send(f);
                 }
             }
         }
